@@ -16,6 +16,7 @@ import itertools
 from sexp import Sym
 
 from props import _hlg_util as U
+from props import _hlg_optbw as OB
 
 PROP = "C10"
 READY = True
@@ -918,7 +919,9 @@ def gen_ann(rng, rich=True):
 # ------------------------------------------------------------------------------------------------
 
 CASES = {"coordmap": case_coordmap, "lol": case_lol, "layer": case_layer, "fuseann": case_fuseann,
-         "hlgcull": case_hlgcull, "stack": case_stack, "annot": case_annot, "rewrite": case_rewrite}
+         "hlgcull": case_hlgcull, "stack": case_stack, "annot": case_annot, "rewrite": case_rewrite,
+         # extension round: the driver loop `_optimize_blockwise` (fusion groups) and `fuse_roots` (Model/OptBW.lean)
+         "optbw": OB.case_optbw, "optbwprog": OB.case_optbwprog}
 
 
 def gen_siblings(rng):
@@ -1016,6 +1019,14 @@ def generate(ctx):
         steps.append({"op": "diamond", "ann": wann(), "annL": wann(), "annR": wann()})
         steps += [{"op": rng.choice(["neg", "dbl"]), "ann": wann()} for _ in range(rng.randint(0, 1))]
         yield "annot", {"n": n, "chunks": [U.rand_comp(rng, n)], "steps": steps, "fuse": True}
+    # function level: the grouping decision of every `_optimize_blockwise` pass and the condition of `fuse_roots` on
+    # synthetic layer DAGs (chains, diamonds, fans, shared/output producers, mixed concatenate/annotations, io layers) …
+    for i in range(ctx.n(360, 4000)):
+        yield "optbw", (OB.gen_roots_graph(rng) if i % 4 == 0 else OB.gen_graph(rng))
+    # … and on the graphs of array programs
+    G3 = U.ProgGen(rng, STACK_W, leaf_dtypes=("i8", "f8"), maxdim=3, maxnd=3)
+    for i in range(ctx.n(50, 600)):
+        yield "optbwprog", {"prog": gen_siblings(rng) if i % 3 == 0 else G3.gen(rng.randint(2, 5))[0]}
     # function level: the rewrite_blockwise calls of optimize_blockwise for sibling-contraction programs and general stacks
     for _ in range(ctx.n(100, 1200)):
         yield "rewrite", {"prog": gen_siblings(rng)}
